@@ -32,8 +32,8 @@ from common import prove, leanchecker
 from vlib import log
 
 PROP = "C17"
-MODULES = ["W2c2Verif.Props.C17"]
-GENS = []
+MODULES = ["W2c2Verif.Props.C17", "W2c2Verif.Props.C17Timeout"]
+GENS = [("CondWait", "gen_condwait")]      # the timeout -> timespec computation of wasmCondRelativeWait (Props/C17Timeout)
 FUTEXDRIVER = os.path.join(vlib.LEAN, ".lake", "build", "bin", "futexdriver")
 
 class SpecMismatch(Exception):
@@ -186,6 +186,8 @@ def run(tier):
         "list suffix; allocation never fails; tied to the real futex.c/list.c/map.c by the sched-trace correspondence",
         "the scheduler shim (tools/sched) and harness tools/harness/futex_sched.c; gcc AddressSanitizer/UBSan verdicts",
         "Futex.Emit.addrText <-> Futex.Emit.addrExpr: gcc parses `si<k>+<off>U` as that expression",
+        "tools/extract/gen_condwait.py (body of wasmCondRelativeWait -> CStmt); time_t and long are 64-bit signed (LP64); the deadline "
+        "harness interposes clock_gettime/pthread_cond_timedwait by ld --wrap",
     ]
     chk.assumptions = [
         "timedwait's relation to wall-clock time is abstracted to a nondeterministic timeout event (a spurious wake-up restarting the "
@@ -383,6 +385,31 @@ def run(tier):
             raise                              # our specification model disagrees with V8: tool failure (exit 2), not a violation
         except Exception as e:
             broken.append({"kind": "e2e-build", "msg": str(e)[-1500:]})
+        # ---------------------------------------------------------------- deadline of finite-timeout waits (clock + timedwait interposed)
+        try:
+            t_exe = fs.build_timeout(repo, d)
+            t_cases = fs.timeout_cases(chk.rng, 40 if quick else 2000)
+            t_out = fs.run_timeout(t_exe, t_cases)
+            n_bad = 0
+            for ci, (c, o) in enumerate(zip(t_cases, t_out)):
+                want = fs.expected_deadline(*c[:3])
+                chk.count_case(("deadline",) + c, True, {"now": c[:2], "timeout_ns": c[2], "deadline": o[:2], "required": want} if ci % 40 == 0 else None)
+                if tuple(o[:2]) != want or o[2] != 2 or o[3] != 1:
+                    n_bad += 1
+                    trunc = tuple(o[:2]) == fs.expected_deadline(c[0], c[1], c[2] % (1 << 32))
+                    chk.violation("cond-timeout-truncated-32-bits" if trunc else "cond-timeout-deadline-wrong",
+                                  f"memory.atomic.wait{'64' if c[3] else '32'} with timeout {c[2]} ns at clock reading {c[0]}.{c[1]:09d}: "
+                                  f"pthread_cond_timedwait is given the deadline {o[0]}.{o[1]:09d} ({o[3]} call(s), wait returned {o[2]}), "
+                                  f"now + timeout is {want[0]}.{want[1]:09d}"
+                                  + (" — the timeout was taken modulo 2^32 ns, so the waiter gives up (returns 2) too early" if trunc else ""),
+                                  {"kind": "timeout-deadline", "case": list(c), "observed": list(o), "required": list(want),
+                                   "replay_cmd": "python3 tools/check.py C17 --replay <this file>"}, True)
+            chk.coverage["timeout_deadline"] = {"cases": len(t_cases), "wrong": n_bad,
+                                                "max_timeout_ns": max(c[2] for c in t_cases)}
+            if len(t_out) != len(t_cases):
+                broken.append({"kind": "harness-run", "msg": f"futex_timeout answered {len(t_out)} of {len(t_cases)} cases"})
+        except Exception as e:
+            broken.append({"kind": "harness-build", "msg": "futex_timeout: " + str(e)[-1200:]})
         # ---------------------------------------------------------------- search on break
         if broken and not chk.violations and not chk.known_hit and exe:
             search_on_break(chk, exe, B, mismatches, driver_ok)
@@ -512,6 +539,12 @@ def replay(path):
                 print(f"replay e2e-offset {o}: observed {got}, required {fs.E2E_EXPECT}" + (f"  WRONG: {wrong}" if wrong else "  ok"))
                 bad = bad or bool(wrong)
             return 1 if bad else 0
+        if r.get("kind") == "timeout-deadline":
+            c = tuple(r["case"])
+            o = fs.run_timeout(fs.build_timeout(repo, d), [c])[0]
+            want = fs.expected_deadline(*c[:3])
+            print(f"replay timeout-deadline now={c[0]}.{c[1]:09d} timeout={c[2]} ns: deadline {o[0]}.{o[1]:09d} (wait returned {o[2]}), required {want[0]}.{want[1]:09d}")
+            return 0 if tuple(o[:2]) == want and o[2] == 2 and o[3] == 1 else 1
         if r.get("kind") == "e2e-wait":
             w2c2 = opmods.build_w2c2(repo, d)
             wasm = fs.wait_cases_module(r["offsets"])
